@@ -182,9 +182,9 @@ func (g *gen) handler(form string) *Handler {
 			t := g.pickType(h.Inner, false)
 			st = Stmt{Kind: "assign", Items: []Item{{K: "formJSON", Name: g.name(used), Ty: g.q(t.tmpl), tmpl: t.tmpl}}}
 		case k == 3:
-			tm := "{M}.IdDossier"
+			tm := pick(g.rng, []string{"{M}.IdDossier", "{M}.IdDossier", "{M}.Archived", "{M}.Label", "{M}.Ratio"})
 			if h.Inner {
-				tm = "{I}.InnerID"
+				tm = pick(g.rng, []string{"{I}.InnerID", "{I}.InnerFlag"})
 			} else if g.enumQuery && g.chance(0.5) {
 				tm = "{M}.Color"
 			}
@@ -296,15 +296,33 @@ func (g *gen) renderBody(h *Handler, c, recv string) string {
 			fmt.Fprintf(&b, "\t%s, _ := %s.FormFile(%s)\n\t_ = %s\n", x, c, lit(it.Name), x)
 		case "formJSON":
 			x := v()
-			fmt.Fprintf(&b, "\tvar %s %s\n\t_ = FormValueJSON(%s, %s, &%s)\n", x, text(it.tmpl, h.Inner), c, lit(it.Name), x)
+			fvj := "FormValueJSON"
+			if !h.Inner && g.chance(0.3) {
+				fvj = "inner.FormValueJSON"
+			}
+			fmt.Fprintf(&b, "\tvar %s %s\n\t_ = %s(%s, %s, &%s)\n", x, text(it.tmpl, h.Inner), fvj, c, lit(it.Name), x)
 		case "queryInt":
 			x := v()
 			T := text(it.tmpl, h.Inner)
-			if g.chance(0.5) {
-				fmt.Fprintf(&b, "\t%s, _ := QueryParamInt[%s](%s, %s)\n\t_ = %s\n", x, T, c, lit(it.Name), x)
-			} else {
+			// the generic helper of the type's kind; from the main package also the imported one
+			fn, tuple := "QueryParamInt", true
+			switch {
+			case strings.HasSuffix(it.tmpl, "Archived") || strings.HasSuffix(it.tmpl, "InnerFlag"):
+				fn, tuple = "QueryParamBool", false
+			case strings.HasSuffix(it.tmpl, "Label"):
+				fn, tuple = "QueryParam", false
+			}
+			if !h.Inner && g.chance(0.4) {
+				fn = "inner." + fn
+			}
+			switch {
+			case !tuple:
+				fmt.Fprintf(&b, "\t%s := %s[%s](%s, %s)\n\t_ = %s\n", x, fn, T, c, lit(it.Name), x)
+			case g.chance(0.5):
+				fmt.Fprintf(&b, "\t%s, _ := %s[%s](%s, %s)\n\t_ = %s\n", x, fn, T, c, lit(it.Name), x)
+			default:
 				e := v()
-				fmt.Fprintf(&b, "\t%s, %s := QueryParamInt[%s](%s, %s)\n\tif %s != nil {\n\t\treturn %s\n\t}\n\t_ = %s\n", x, e, T, c, lit(it.Name), e, e, x)
+				fmt.Fprintf(&b, "\t%s, %s := %s[%s](%s, %s)\n\tif %s != nil {\n\t\treturn %s\n\t}\n\t_ = %s\n", x, e, fn, T, c, lit(it.Name), e, e, x)
 			}
 		default:
 			var xs, calls []string
@@ -466,7 +484,15 @@ type controllerV struct{}
 
 var helper controllerV
 
-func QueryParamInt[T ~int64](echo.Context, string) (T, error) { return 0, nil }
+type Archived bool
+
+type Label string
+
+type Ratio float64
+
+func QueryParamInt[T ~int64 | ~float64](echo.Context, string) (T, error) { return 0, nil }
+func QueryParamBool[T ~bool](echo.Context, string) T                    { return false }
+func QueryParam[T ~string](echo.Context, string) T                      { return "" }
 func (controllerV) QueryParamInt64(echo.Context, string) int64 { return 0 }
 func (controllerV) QueryParamBool(echo.Context, string) bool   { return false }
 func (*controller) QueryParamInt64(echo.Context, string) int64 { return 0 }
@@ -493,7 +519,11 @@ type InnerID int64
 
 var _ = fmt.Sprint
 
-func QueryParamInt[T ~int64](echo.Context, string) (T, error) { return 0, nil }
+type InnerFlag bool
+
+func QueryParamInt[T ~int64 | ~float64](echo.Context, string) (T, error) { return 0, nil }
+func QueryParamBool[T ~bool](echo.Context, string) T                    { return false }
+func QueryParam[T ~string](echo.Context, string) T                      { return "" }
 func (Controller) QueryParamInt64(echo.Context, string) int64 { return 0 }
 func (Controller) QueryParamBool(echo.Context, string) bool   { return false }
 func FormValueJSON(echo.Context, string, any) error           { return nil }
